@@ -12,6 +12,7 @@ import (
 
 	"github.com/akalin/gopar/par2"
 	"github.com/akalin/gopar/rsec16"
+	"github.com/klauspost/cpuid/v2"
 	"pgregory.net/rapid"
 	"verifharness/ref/fsx"
 	"verifharness/ref/gf16"
@@ -20,13 +21,14 @@ import (
 
 // Case is one scenario.
 type Case struct {
-	Op    string `json:"op"` // gen | rec | api
-	Coder string `json:"coder"`
-	D     int    `json:"d"`
-	P     int    `json:"p"`
-	Len   int    `json:"len"`
-	G     int    `json:"g"`
-	Procs int    `json:"procs"`
+	Op      string `json:"op"` // gen | rec | api
+	Coder   string `json:"coder"`
+	D       int    `json:"d"`
+	P       int    `json:"p"`
+	Len     int    `json:"len"`
+	G       int    `json:"g"`
+	Procs   int    `json:"procs"`
+	Topo    []int  `json:"topo,omitempty"` // api: reported CPU topology {physical cores, threads per core} while the case runs (both >= 1)
 	MissD   []int  `json:"miss_d,omitempty"`
 	KeepPar []int  `json:"keep_p,omitempty"` // if set: only these parity shards are supplied to ReconstructData
 	Seed    uint64 `json:"seed"`
@@ -135,6 +137,12 @@ func check(c Case) (string, int) {
 		defer runtime.GOMAXPROCS(old)
 	}
 	if c.Op == "api" {
+		if len(c.Topo) == 2 && c.Topo[0] >= 1 && c.Topo[1] >= 1 {
+			// the default goroutine count (option 0) is derived from GOMAXPROCS and the CPU topology that cpuid reports
+			oldP, oldT, oldL := cpuid.CPU.PhysicalCores, cpuid.CPU.ThreadsPerCore, cpuid.CPU.LogicalCores
+			cpuid.CPU.PhysicalCores, cpuid.CPU.ThreadsPerCore, cpuid.CPU.LogicalCores = c.Topo[0], c.Topo[1], c.Topo[0]*c.Topo[1]
+			defer func() { cpuid.CPU.PhysicalCores, cpuid.CPU.ThreadsPerCore, cpuid.CPU.LogicalCores = oldP, oldT, oldL }()
+		}
 		return checkAPI(c), 2
 	}
 	s := c.Seed | 1
@@ -573,6 +581,17 @@ func TestCheck(t *testing.T) {
 		}
 	}
 	do(Case{Op: "api", D: 2, P: 3, Len: 64, G: 64, Seed: uint64(cfg.Shard)})
+	// the default goroutine count (option 0) for every GOMAXPROCS value and reported CPU topology
+	for _, pr := range []int{1, 2, 3, 4, 16} {
+		for _, topo := range [][]int{nil, {1, 1}, {1, 2}, {2, 2}, {8, 2}, {4, 1}, {16, 1}, {3, 4}} {
+			idx++
+			if !cfg.Mine(idx) {
+				continue
+			}
+			rec.Class("default-goroutine-count")
+			do(Case{Op: "api", D: 2, P: 2, Len: 32, G: 0, Procs: pr, Topo: topo, Seed: uint64(idx)})
+		}
+	}
 
 	n := cfg.N(800, 12000)
 	if raceEnabled {
